@@ -7,6 +7,26 @@ use std::collections::{BTreeMap, HashMap};
 /// stop minimising once this many cores outside the known-findings list have been found in one job
 pub const MAX_UNLISTED_CORES: usize = 4;
 
+/// the label of a configuration without its op bound: quick and thorough tiers of one configuration share it
+pub fn family_key(label: &str) -> String {
+    let mut key = String::new();
+    let b = label.as_bytes();
+    let mut i = 0;
+    while i < b.len() {
+        if label[i..].starts_with("n<=") {
+            key.push('n');
+            i += 3;
+            while i < b.len() && b[i].is_ascii_digit() {
+                i += 1;
+            }
+        } else {
+            key.push(b[i] as char);
+            i += 1;
+        }
+    }
+    key
+}
+
 pub struct CoreFailure {
     pub kind: String,
     pub core_key: String,
@@ -30,6 +50,13 @@ pub struct JobOutcome {
     pub samples: Vec<serde_json::Value>,
     pub schedules_sample: u64,
     pub wall_s: f64,
+    /// failing histories found in the golden failing-set, per finding id
+    pub golden_hits: BTreeMap<String, u64>,
+    /// learn mode: (failure id, kind, core key) of every failing history
+    pub learned: Vec<(u64, String, String)>,
+    pub sig_key: String,
+    /// a golden failing-set was available for this configuration: failures outside it are violations
+    pub golden_used: bool,
 }
 
 pub trait JobT: Send + Sync {
@@ -37,7 +64,11 @@ pub trait JobT: Send + Sync {
     fn system(&self) -> &'static str;
     /// `known`: (kind, core key) pairs a listed finding matches for this property and system; once several
     /// cores outside it are established the remaining failures are only counted, not minimised
-    fn run(&self, threads: usize, site_kinds: &std::collections::HashSet<String>, known: &std::collections::HashSet<(String, String)>) -> JobOutcome;
+    /// `golden`: the failing histories (failure ids) listed for this configuration family, each with its
+    /// finding id; `None` = no golden set recorded (fall back to matching by core)
+    fn run(&self, threads: usize, site_kinds: &std::collections::HashSet<String>, known: &std::collections::HashSet<(String, String)>, golden: Option<&HashMap<u64, String>>) -> JobOutcome;
+    /// key of the configuration family (label without its op bound)
+    fn family(&self) -> String;
     /// re-execute one abstract history with this job's oracles; returns (text report, failures)
     fn replay(&self, abs: &[Abs]) -> (String, Vec<Failure>);
     /// Behavioural signature of a (core) history under this job's delivery discipline and transition kinds:
@@ -259,7 +290,10 @@ impl<Y: Sys> JobT for Job<Y> {
     fn system(&self) -> &'static str {
         Y::NAME
     }
-    fn run(&self, threads: usize, site_kinds: &std::collections::HashSet<String>, known: &std::collections::HashSet<(String, String)>) -> JobOutcome {
+    fn family(&self) -> String {
+        family_key(&self.cfg.label)
+    }
+    fn run(&self, threads: usize, site_kinds: &std::collections::HashSet<String>, known: &std::collections::HashSet<(String, String)>, golden: Option<&HashMap<u64, String>>) -> JobOutcome {
         let t0 = std::time::Instant::now();
         let res = explore::<Y>(&self.cfg, self.visitor.as_ref(), threads, site_kinds);
         let mut cache = HashMap::new();
@@ -268,7 +302,19 @@ impl<Y: Sys> JobT for Job<Y> {
         let failing = res.sink.failures.len() as u64 + res.sink.site_counts.values().map(|v| v.0).sum::<u64>();
         let mut unlisted = 0usize;
         let mut not_minimised = 0u64;
+        let learn = std::env::var("VERIF_LEARN").is_ok();
+        let mut golden_hits: BTreeMap<String, u64> = BTreeMap::new();
+        let mut learned: Vec<(u64, String, String)> = vec![];
         for f in res.sink.failures.iter() {
+            if !learn {
+                if let Some(fid_to_finding) = golden {
+                    if let Some(finding) = fid_to_finding.get(&f.fid) {
+                        // this exact history is listed as failing in exactly this way
+                        *golden_hits.entry(finding.clone()).or_insert(0) += 1;
+                        continue;
+                    }
+                }
+            }
             // (VERIF_LEARN=1: minimise everything — used when the known-findings list is regenerated)
             if unlisted >= MAX_UNLISTED_CORES && std::env::var("VERIF_LEARN").is_err() {
                 // the verdict (violation) is established; do not spend minutes minimising thousands of further failures
@@ -286,8 +332,11 @@ impl<Y: Sys> JobT for Job<Y> {
                 example_text: show_hist::<Y>(&f.hist),
                 histories: 0,
             });
-            if e.histories == 0 && !known.contains(&(e.kind.clone(), e.core_key.clone())) {
+            if e.histories == 0 && (golden.is_some() || !known.contains(&(e.kind.clone(), e.core_key.clone()))) {
                 unlisted += 1;
+            }
+            if learn {
+                learned.push((f.fid, f.kind.clone(), e.core_key.clone()));
             }
             e.histories += 1;
         }
@@ -361,6 +410,10 @@ impl<Y: Sys> JobT for Job<Y> {
             samples,
             schedules_sample: sched,
             wall_s: t0.elapsed().as_secs_f64(),
+            golden_hits,
+            learned,
+            sig_key: family_key(&self.cfg.label),
+            golden_used: golden.is_some() && !learn,
         }
     }
     fn replay(&self, abs: &[Abs]) -> (String, Vec<Failure>) {
@@ -388,23 +441,7 @@ impl<Y: Sys> JobT for Job<Y> {
         (txt, sink.failures)
     }
     fn signature(&self, abs: &[Abs]) -> (String, String) {
-        // one signature per configuration family: the label without its op bound (quick and thorough share it)
-        let mut key = String::new();
-        let lab = self.cfg.label.as_str();
-        let mut i = 0;
-        let b = lab.as_bytes();
-        while i < b.len() {
-            if lab[i..].starts_with("n<=") {
-                key.push('n');
-                i += 3;
-                while i < b.len() && b[i].is_ascii_digit() {
-                    i += 1;
-                }
-            } else {
-                key.push(b[i] as char);
-                i += 1;
-            }
-        }
+        let key = family_key(&self.cfg.label);
         let mut v = self.visitor.fresh();
         let mut sink = Sink::default();
         let mut st = Stats::default();
